@@ -86,6 +86,20 @@ CLAIMED = {
    note=TRUST + "Until the C03 round-trip theorem covers it, 'compiles as one expression' rests on CPython's compile() on the explored outputs.",
    technique="Coq proof by structural induction over all expression trees + finite table check (vm_compute) + string/AST correspondence + compile() oracle",
    ref="5/C02"),
+ "C03": dict(
+   text="Theorem C03_roundtrip_core_partial (ParseProof.roundtrip_core, by induction over the tree with a simulation of the parser's "
+        "loops): a precedence-climbing parser of Python's expression grammar (Parse.pc) reads back EXACTLY the tree from the tokens the "
+        "unparser prints, for every tree of any depth over the operator core - 13 binary, 4 unary, 2 boolean operators, comparison "
+        "chains of all 10 operators, conditional expressions, lambdas, assignment expressions, attribute / call / subscript trailers, "
+        "groups, names, opaque literals - with the precedence ladder and slot table REGENERATED from the code (C03_context_* are the "
+        "finite table facts: a changed precedence or slot breaks them); C03_is_not_ambiguity (`a is (not b)`); C03_paren_iff. PARTIAL: "
+        "displays, comprehensions, keyword/starred arguments, slices, lambda parameters, f-strings, yield/await are outside the proved "
+        "core and are decided by CPython's parser on the exhaustive (parent,slot) x child compositions, every lambda signature, sampled "
+        "depth-3 / deep / right-edge trees, standard-library expressions (support). The parser model is validated against ast.parse "
+        "through CPython's tokenizer; the printer of the theorem is checked equal to the unparser model's tokens on every core tree.",
+   note=TRUST + "Parse.pc is a hand-written model of CPython's parser on the core (validated, not verified); literals are opaque tokens whose spelling is C04's theorem; tokenisation is CPython's.",
+   technique="Coq proof (structural induction + simulation of a fuelled precedence-climbing parser, finite table checks by vm_compute) over the generated precedence tables + parser/printer correspondence with CPython + exhaustive composition round trips",
+   ref="5/C03"),
  "C04": dict(
    text="Theorems C04_str_codec (for every code point list and both quotes, decode(escape s) = s under a reference decoder of Python's "
         "escape rules), C04_escape_single_line, C04_fstring_text_codec (brace doubling), C04_unparse_single_line (whole unparser, any "
